@@ -138,6 +138,11 @@ impl G for Bool {
         out.push(if self.0 { 1 } else { 0 })
     }
 }
+impl G for () {
+    fn gen(_s: &mut Src, _d: u32) -> Self {}
+    fn renc(&self, _out: &mut Vec<u8>) {}
+}
+
 impl<T: G> G for Option<T> {
     fn gen(s: &mut Src, d: u32) -> Self {
         if s.chance(2, 3) {
@@ -293,7 +298,11 @@ fn rt<T: G>(name: &'static str, s: &mut Src, rec: &mut Rec) -> CaseResult {
     // without sentinel the reader must be at the end
     {
         let mut r = SliceReader::new(&bytes);
-        let _ = T::read_from(&mut r);
+        let d = catch(|| T::read_from(&mut r)).map_err(|p| Fail::new(p.key(), format!("{name}: decoding own encoding (nothing after it) panicked: {}", p.message)))?;
+        match d {
+            Ok(d) => ensure!(d == v, format!("roundtrip-value-differs:{name}"), "{name}: decoded {d:?} from the exact encoding of {v:?}"),
+            Err(e) => return Err(Fail::new(format!("roundtrip-decode-error:{name}"), format!("{name}: own encoding {} (with nothing after it) rejected: {e}", hex(&bytes)))),
+        }
         ensure!(!r.has_more_bytes(), format!("roundtrip-leftover:{name}"), "{name}: bytes left over after decoding own encoding");
     }
     // every proper prefix must be an error, never a panic (all offsets up to 64 bytes, else sampled)
@@ -352,6 +361,7 @@ macro_rules! type_table {
     ($mac:ident) => {
         $mac! {
             u8, u16, u32, u64, u128, usize, Bool,
+            (), [(); 3], ((),), Option<()>, [[u8; 0]; 2], ((), u8),
             Option<u64>, Option<Option<u8>>, Option<Vec<u16>>, Option<usize>,
             [u8; 0], [u8; 1], [u32; 5], [usize; 3], [Option<u8>; 4], [String; 2],
             Vec<u8>, Vec<usize>, Vec<Vec<u8>>, Vec<Option<u32>>, Vec<String>, Vec<(u8, usize)>, Vec<Bool>,
